@@ -170,7 +170,7 @@ impl Lane for C15 {
                     {
                         let victim = rng.below(workers) as u32;
                         let seed = rng.next_u64();
-                        SchedSpec { kind: SchedKind::StallOne { victim }, seed, hold: crate::sched::hold_for_seed(seed) }
+                        SchedSpec { kind: SchedKind::StallOne { victim }, seed, hold: crate::sched::hold_for_seed(seed), callers: crate::sched::callers_for_seed(seed) }
                     }
                 } else {
                     draw_sched(rng, rows)
